@@ -1300,8 +1300,10 @@ def consts_in(e):
 
 
 class Facts:
-    def __init__(self, path):
+    def __init__(self, path, splice=True):
         self.path = path
+        self.spliced = {}            # helper path -> Body removed from `bodies` after splicing into its callers (scv/inline.py)
+        self.splice_report = []
         self.meta = {}
         self.adts = {}
         self.consts = {}
@@ -1332,6 +1334,13 @@ class Facts:
                     complete = True
         if not complete:
             raise AnchorLost('fact base %s is truncated' % path)
+        if splice:
+            from .inline import splice_new_helpers
+            self.splice_report = splice_new_helpers(self, Body)
+            for hp, cs in self.splice_report:
+                for b in self.bodies.values():
+                    if b.kind == 'closure' and b.rec.get('parent') == hp and len(cs) == 1:
+                        b.rec['parent'] = cs[0]
 
     def body(self, path):
         """exact def-path lookup; fail closed"""
